@@ -111,3 +111,147 @@ Proof.
     transitivity (PSeries (bc a) x * (exp (- a * ln (1 + x)) * exp (a * ln (1 + x)))); [rewrite E2; ring|].
     rewrite <- Rmult_assoc, E. ring.
 Qed.
+
+(* ---------- terms, partial sums, remainders ---------- *)
+
+(* n-th term of the series and the ratio of consecutive terms *)
+Definition tm (a x : R) (n : nat) : R := bc a n * x ^ n.
+Definition ratio (a x : R) (n : nat) : R := x * (a - INR n) / INR (S n).
+
+Lemma tm_0 : forall a x, tm a x 0 = 1.
+Proof. intros. unfold tm. simpl. ring. Qed.
+Lemma tm_S : forall a x n, tm a x (S n) = tm a x n * ratio a x n.
+Proof.
+  intros a x n. unfold tm, ratio. rewrite bc_S. simpl pow. pose proof (INR_S_pos n). field. lra.
+Qed.
+
+(* partial sums 0..n *)
+Definition psum (t : nat -> R) (n : nat) : R := sum_n t n.
+Lemma psum_0 : forall t, psum t 0 = t O.
+Proof. intros. unfold psum. apply sum_O. Qed.
+Lemma psum_S : forall t n, psum t (S n) = psum t n + t (S n).
+Proof. intros. unfold psum. rewrite sum_Sn. reflexivity. Qed.
+
+Lemma binomial_series_lim : forall a x, 0 <= a <= 1 -> Rabs x < 1 ->
+  is_lim_seq (psum (tm a x)) (Rpower (1 + x) a).
+Proof.
+  intros a x Ha Hx. rewrite <- binomial_series_identity by assumption.
+  assert (H : ex_pseries (bc a) x) by (apply CV_radius_inside, bc_inside; assumption).
+  apply PSeries_correct in H. apply is_pseries_R in H. exact H.
+Qed.
+
+(* segment t n + ... + t (n + j) *)
+Fixpoint seg (t : nat -> R) (n j : nat) : R :=
+  match j with
+  | O => t n
+  | S j' => t n + seg t (S n) j'
+  end.
+
+Lemma seg_last : forall t j n, seg t n (S j) = seg t n j + t (n + S j)%nat.
+Proof.
+  intros t j. induction j as [|j IH]; intros n.
+  - simpl. replace (n + 1)%nat with (S n) by lia. ring.
+  - change (seg t n (S (S j))) with (t n + seg t (S n) (S j)). rewrite IH.
+    change (seg t n (S j)) with (t n + seg t (S n) j).
+    replace (S n + S j)%nat with (n + S (S j))%nat by lia. ring.
+Qed.
+
+Lemma psum_seg : forall t n j, psum t (n + S j) = psum t n + seg t (S n) j.
+Proof.
+  intros t n j. induction j as [|j IH].
+  - replace (n + 1)%nat with (S n) by lia. rewrite psum_S. reflexivity.
+  - replace (n + S (S j))%nat with (S (n + S j)) by lia. rewrite psum_S, IH, seg_last.
+    replace (S n + S j)%nat with (S (n + S j)) by lia. ring.
+Qed.
+
+(* a bound on every finite segment after n bounds the remainder *)
+Lemma remainder_le : forall t (l : R) n B, is_lim_seq (psum t) (Finite l) ->
+  (forall j, Rabs (seg t (S n) j) <= B) -> Rabs (l - psum t n) <= B.
+Proof.
+  intros t l n B Hl Hseg.
+  assert (H1 : is_lim_seq (fun m => Rabs (psum t m - psum t n)) (Rabs (l - psum t n))).
+  { apply (is_lim_seq_abs _ (Finite (l - psum t n))).
+    apply (is_lim_seq_minus _ _ (Finite l) (Finite (psum t n))); [exact Hl|apply is_lim_seq_const|].
+    unfold is_Rbar_minus, is_Rbar_plus. simpl. reflexivity. }
+  assert (H2 : Rbar_le (Finite (Rabs (l - psum t n))) (Finite B)).
+  { apply (is_lim_seq_le_loc _ (fun _ => B) _ _ ) with (2 := H1) (3 := is_lim_seq_const B).
+    exists (S n). intros m Hm. replace m with (n + S (m - S n))%nat by lia.
+    rewrite psum_seg. replace (psum t n + seg t (S n) (m - S n) - psum t n) with (seg t (S n) (m - S n)) by ring.
+    apply Hseg. }
+  exact H2.
+Qed.
+
+(* alternating segment with non-increasing magnitudes: between 0 and its first term *)
+Lemma seg_alternating : forall t q j n,
+  (forall k, (n <= k)%nat -> t (S k) = t k * q k /\ -1 <= q k <= 0) ->
+  (0 <= seg t n j <= t n) \/ (t n <= seg t n j <= 0).
+Proof.
+  intros t q j. induction j as [|j IH]; intros n H.
+  - simpl. destruct (Rle_dec 0 (t n)); [left|right]; lra.
+  - change (seg t n (S j)) with (t n + seg t (S n) j).
+    destruct (H n (le_n n)) as [E Hq].
+    assert (H' : forall k, (S n <= k)%nat -> t (S k) = t k * q k /\ -1 <= q k <= 0) by (intros k Hk; apply H; lia).
+    specialize (IH (S n) H'). rewrite E in IH.
+    destruct (Rle_dec 0 (t n)) as [Hp|Hp]; [left|right]; destruct IH as [IH|IH]; nra.
+Qed.
+
+(* segment with terms shrinking by at least 1/2: at most twice its first term *)
+Lemma seg_geometric : forall t j n,
+  (forall k, (n <= k)%nat -> Rabs (t (S k)) <= Rabs (t k) / 2) ->
+  Rabs (seg t n j) <= 2 * Rabs (t n) - Rabs (t (n + j)%nat).
+Proof.
+  intros t j. induction j as [|j IH]; intros n H.
+  - simpl. replace (n + 0)%nat with n by lia. lra.
+  - rewrite seg_last. eapply Rle_trans; [apply Rabs_triang|].
+    specialize (IH n H). assert (Hh := H (n + j)%nat ltac:(lia)).
+    replace (n + S j)%nat with (S (n + j)) by lia. lra.
+Qed.
+
+(* ---------- the two remainder bounds for 0 <= a <= 1 ---------- *)
+
+Lemma ratio_pos_range : forall a x k, 0 <= a <= 1 -> 0 <= x <= 1 -> (1 <= k)%nat -> -1 <= ratio a x k <= 0.
+Proof.
+  intros a x k Ha Hx Hk. unfold ratio. pose proof (INR_S_pos k) as HS. rewrite S_INR in *.
+  assert (Hk1 : 1 <= INR k) by (apply (le_INR 1); assumption).
+  split.
+  - apply Rmult_le_reg_r with (r := INR k + 1); [assumption|]. unfold Rdiv. rewrite Rmult_assoc, Rinv_l by lra. nra.
+  - apply Rmult_le_reg_r with (r := INR k + 1); [assumption|]. unfold Rdiv. rewrite Rmult_assoc, Rinv_l by lra. nra.
+Qed.
+
+Lemma ratio_abs_half : forall a x k, 0 <= a <= 1 -> Rabs x <= 1 / 2 -> Rabs (ratio a x k) <= 1 / 2.
+Proof.
+  intros a x k Ha Hx. unfold ratio. pose proof (INR_S_pos k) as HS. rewrite S_INR in *.
+  pose proof (pos_INR k) as Hk0.
+  unfold Rdiv. rewrite !Rabs_mult, (Rabs_pos_eq (/ (INR k + 1))) by (left; apply Rinv_0_lt_compat; assumption).
+  assert (Hq : Rabs (a - INR k) * / (INR k + 1) <= 1).
+  { apply Rmult_le_reg_r with (r := INR k + 1); [assumption|]. rewrite Rmult_assoc, Rinv_l, Rmult_1_r, Rmult_1_l by lra.
+    apply Rabs_le. lra. }
+  pose proof (Rabs_pos x). pose proof (Rabs_pos (a - INR k)).
+  assert (0 <= Rabs (a - INR k) * / (INR k + 1)).
+  { apply Rmult_le_pos; [assumption|]. left. apply Rinv_0_lt_compat. assumption. }
+  rewrite Rmult_assoc. nra.
+Qed.
+
+(* 0 <= x < 1: the remainder after n terms (n >= 0) is at most the first omitted term *)
+Theorem binomial_remainder_pos : forall a x n, 0 <= a <= 1 -> 0 <= x < 1 ->
+  Rabs (Rpower (1 + x) a - psum (tm a x) n) <= Rabs (tm a x (S n)).
+Proof.
+  intros a x n Ha Hx. apply remainder_le; [apply binomial_series_lim; [assumption|apply Rabs_def1; lra]|].
+  intros j.
+  destruct (seg_alternating (tm a x) (ratio a x) j (S n)) as [H|H].
+  - intros k Hk. split; [apply tm_S|apply ratio_pos_range; [assumption|lra|lia]].
+  - rewrite !Rabs_pos_eq; lra.
+  - rewrite !Rabs_left1; lra.
+Qed.
+
+(* -1/2 <= x <= 0: at most twice the first omitted term *)
+Theorem binomial_remainder_neg : forall a x n, 0 <= a <= 1 -> - (1 / 2) <= x <= 0 ->
+  Rabs (Rpower (1 + x) a - psum (tm a x) n) <= 2 * Rabs (tm a x (S n)).
+Proof.
+  intros a x n Ha Hx. apply remainder_le; [apply binomial_series_lim; [assumption|apply Rabs_def1; lra]|].
+  intros j. eapply Rle_trans; [apply (seg_geometric (tm a x) j (S n))|].
+  - intros k Hk. rewrite tm_S, Rabs_mult.
+    assert (Hr : Rabs (ratio a x k) <= 1 / 2) by (apply ratio_abs_half; [assumption|apply Rabs_le; lra]).
+    pose proof (Rabs_pos (tm a x k)). pose proof (Rabs_pos (ratio a x k)). nra.
+  - pose proof (Rabs_pos (tm a x (S n + j))). lra.
+Qed.
